@@ -47,10 +47,47 @@ Definition declared_json_type (s : schema) : option bytes :=
               end
   end.
 
+(* the declared JSON type of a schema does not suit a value of the Ethereum type spelled [t] *)
+Definition json_at_odds (s : schema) (t : bytes) : bool :=
+  match declared_json_type s with
+  | Some jt => negb (json_compatible jt (eth_class_of t))
+  | None => false
+  end.
+
+(* the type text with its last dimension removed: "uint256[3][]" -> "uint256[3]" -> "uint256" *)
+Fixpoint drop_through_lbracket (r : bytes) : bytes :=     (* on the reversed text *)
+  match r with
+  | [] => []
+  | b :: r' => if byte_eqb b x5b then r' else drop_through_lbracket r'
+  end.
+Definition strip_dim (t : bytes) : bytes :=
+  match rev t with _ :: r => rev (drop_through_lbracket r) | [] => [] end.
+
+(* The elements of an array type are described by the [items] chain of the schema that carries the
+   details: one level per dimension of the Ethereum type.  The level k steps down describes values of
+   the type with k dimensions stripped, so its JSON type must suit that type ("array" while dimensions
+   remain, then the JSON type of the element type); a level that is missing while dimensions remain
+   leaves the elements undescribed.  [elem_at_odds it t]: the chain starting at [it], which stands for
+   values of the type spelled [t], has such a fault. *)
+Fixpoint elem_at_odds (it : schema) (t : bytes) {struct it} : bool :=
+  match it with
+  | Schema _ _ _ _ items' =>
+      json_at_odds it t
+      || (if ends_with_rbracket t then
+            match items' with None => true | Some it' => elem_at_odds it' (strip_dim t) end
+          else false)
+  end.
+Definition elements_at_odds (t : bytes) (items : option schema) : bool :=
+  if ends_with_rbracket t then
+    match items with None => true | Some it => elem_at_odds it (strip_dim t) end
+  else false.
+
+(* JSON type at odds with the Ethereum type of the details: at the level that carries the details,
+   or anywhere along the element descriptions of an array type *)
 Definition type_at_odds (s : schema) : bool :=
-  match s_details s, declared_json_type s with
-  | Some d, Some jt => negb (json_compatible jt (eth_class_of (d_type d)))
-  | _, _ => false
+  match s_details s with
+  | Some d => json_at_odds s (d_type d) || elements_at_odds (d_type d) (s_items s)
+  | None => false
   end.
 
 (* ---------- consistent parameter schemas ---------- *)
@@ -70,8 +107,9 @@ Definition positions_ok (members : list (bytes * option schema)) : bool :=
   && forallb (fun i => (count_pos (Z.of_nat i) idx =? 1)%nat) (seq 0 (length members)).
 
 (* A schema describes a parameter consistently when it carries details; its JSON type is not at
-   odds with the Ethereum type of the details; an "array" schema describes its elements through
-   [items] at every dimension; and the members of an "object" schema (or of the innermost element
+   odds with the Ethereum type of the details, and neither are the JSON types of the element
+   descriptions of an array type, of which there is one per dimension ([type_at_odds]); an "array"
+   schema describes its elements through [items] at every dimension; and the members of an "object" schema (or of the innermost element
    description of an array schema) are present, consistent themselves, and positioned 0..n-1. *)
 Fixpoint consistent (s : schema) : bool :=
   match s with
